@@ -619,6 +619,9 @@ fn header_lies() -> Vec<(&'static str, &'static str, Vec<Vec<u8>>, bool, bool)> 
         ("100 kB header line", "HTTP/1.1 206 Partial Content", vec![format!("X-Pad: {}", "a".repeat(100_000)).into_bytes()], true, true),
         ("accept-ranges none", "HTTP/1.1 206 Partial Content", vec![h("Accept-Ranges: none")], true, true),
     ];
+    // handled specially by the server script: every request is answered with a redirect to a
+    // URL that has not been visited yet
+    v.push(("endless chain of redirects to new URLs", "HTTP/1.1 302 Found", vec![], false, true));
     let many: Vec<Vec<u8>> = (0..2000).map(|i| format!("X-H{}: v", i).into_bytes()).collect();
     v.push(("2000 headers", "HTTP/1.1 206 Partial Content", many, true, true));
     v
@@ -665,7 +668,8 @@ fn server_engine(rep: &Report, seed: u64, tier: Tier) {
         let server = Server::start(
             Arc::new(valid.clone()),
             Arc::new(move |req, f| {
-                if req.n < target || (req.n > target && !persistent) {
+                let chain = how >= 13 && hl[how as usize - 13].0.starts_with("endless chain");
+                if req.n < target || (req.n > target && !persistent && !chain) {
                     return Action::Full;
                 }
                 let (a, b) = req.range.unwrap_or((0, 0));
@@ -673,6 +677,9 @@ fn server_engine(rep: &Report, seed: u64, tier: Tier) {
                 let mut rng = Rng::new(lie_seed);
                 let correct = f[(a as usize).min(f.len())..(a as usize + len).min(f.len())].to_vec();
                 match how {
+                    h if h >= 13 && hl[h as usize - 13].0.starts_with("endless chain") => {
+                        Action::Raw(format!("HTTP/1.1 302 Found\r\nLocation: /hop/{}/a.cba\r\nContent-Length: 0\r\n\r\n", req.n + 1).into_bytes())
+                    }
                     h if h >= 13 => Action::Raw(header_lie_response(&hl[h as usize - 13], &correct)),
                     11 => Action::Custom { status: 206, declared_len: Some(1 << 62), body: correct },
                     12 => Action::Custom { status: 206, declared_len: Some(1 << 40), body: correct },
